@@ -5,7 +5,28 @@ from vx.unit import Unit, spec_text
 from vx import weave
 from vx.rs import AnchorLost
 
-XOR_RE = re.compile(r'b_0\.iter\(\)\.zip\(&b_vals\[([^\]]*?)\.\.([^\]]*?)\]\)\.enumerate\(\)\.for_each\(\|\(jdx,\s*\(b0val,\s*bi1val\)\)\|\s*tmp\[jdx\]\s*=\s*b0val\s*\^\s*bi1val\s*\)\s*;', re.S)
+XOR_RE = re.compile(r'b_0\.iter\(\)\.zip\(&b_vals\[([^\]]*?)\.\.([^\]]*?)\]\)\.enumerate\(\)\.for_each\(\|\((\w+),\s*\((\w+),\s*(\w+)\)\)\|\s*tmp\[(\w+)\]\s*=\s*(\w+)\s*\^\s*(\w+)\s*\)\s*;', re.S)
+
+# R20: the locals of expand_message_xmd are recognised by their role (defining expression) and renamed consistently to the names the woven ghost text uses, so that
+# a renamed local is not a lost anchor.  Alpha-renaming only: refused when the new name already occurs in the body.
+ROLES = [('b_in_bytes', r'let\s+(\w+)\s*=\s*<HashT as Digest>::OutputSize::to_usize\(\)'),
+         ('ell', r'let\s+(\w+)\s*=\s*\(\s*len_in_bytes\s*\+'),
+         ('b_0', r'let\s+(\w+)\s*=\s*HashT::new\(\)'),
+         ('b_vals', r'let\s+mut\s+(\w+)\s*=\s*Vec::<u8>::with_capacity\('),
+         ('idx', r'for\s+(\w+)\s+in\s+1\s*\.\.'),
+         ('tmp', r'let\s+mut\s+(\w+)\s*=\s*GenericArray::<u8,\s*<HashT as Digest>::OutputSize>::default\(\)')]
+
+
+def alpha_normalise(b, u):
+    for canon, pat in ROLES:
+        m = re.search(pat, b)
+        if not m or m.group(1) == canon:
+            continue
+        if re.search(r'\b' + canon + r'\b', b):
+            raise AnchorLost(f'expand_message_xmd: local `{m.group(1)}` plays the role of `{canon}`, but `{canon}` is used for something else')
+        b = re.sub(r'\b' + re.escape(m.group(1)) + r'\b', canon, b)
+        u.rewrites['R20'] = u.rewrites.get('R20', 0) + 1
+    return b
 
 
 def build(src, workdir):
@@ -22,8 +43,9 @@ def build(src, workdir):
             raise AnchorLost('expand_message_xmd: the abort for ell > 255 was not found')
         b = re.sub(r'::std::rt::begin_panic\("(?:[^"\\]|\\.)*"\)', 'vstd::pervasive::unreached::<()>()', b)
         u.rewrites['R9'] = u.rewrites.get('R9', 0) + 1
+        b = alpha_normalise(b, u)
         m = XOR_RE.search(b)
-        if not m:
+        if not m or not (m.group(3) == m.group(6) and {m.group(4), m.group(5)} == {m.group(7), m.group(8)} and len({m.group(3), m.group(4), m.group(5)}) == 3):
             raise AnchorLost('expand_message_xmd: the strxor expression no longer has the expected text')
         lo, hi = ' '.join(m.group(1).split()), ' '.join(m.group(2).split())
         b = b[:m.start()] + f"xor_into(&mut tmp, &b_0, vec_range(&b_vals, {lo}, {hi}));" + b[m.end():]
